@@ -175,12 +175,29 @@ DUP_QUERIES = [
 ]
 
 
+# ---- page paths in which '.zo' occurs before the extension as well ---------------------------
+PATHS_FILES = {
+    "my.zone/a.zo": "# A\n\n- 240101#A1 on a page in a directory named my.zone #t1\n",
+    "x.zoo.zo": "# X\n\n- 240102#X1 on a page named x.zoo #t1\no 240103#X2 a todo there\n",
+    "plain.zo": "# P\n\n- 240104#P1 on an ordinary page #t1\n",
+}
+PATHS_QUERIES = [(None, None, ["file"]), ([[["tag", "#", "t1", False]]], ["alpha"], ["file"]),
+                 ([[["kind", "-"]]], None, ["type", "file"])]
+SMALL = {"DUP": DUP_FILES, "PATHS": PATHS_FILES}
+
+
+def _small_index(name):
+    ix = _IX.get(name)
+    if ix is None:
+        ix = _IX[name] = IX.Index(SMALL[name], DAY, tag="c09d", allow_shared_zids=(name == "DUP"))
+    return ix
+
+
 def _run_dup_case(ctx, case) -> F.Outcome:
     """Every matching note exactly once, under its own headers: notes are told apart by their text."""
-    _, where, order, group = case
-    ix = _IX.get("DUP")
-    if ix is None:
-        ix = _IX["DUP"] = IX.Index(DUP_FILES, DAY, tag="c09d", allow_shared_zids=True)
+    name, where, order, group = case
+    DUP_FILES = SMALL[name]  # noqa: N806
+    ix = _small_index(name)
     H.freeze(DAY)
     out = F.Outcome()
     qtext = Q.render_query(["note"], where, order, group)
@@ -190,9 +207,9 @@ def _run_dup_case(ctx, case) -> F.Outcome:
         return out
     res, err = ix.execute(qtext)
     out.obs = H.digest(res if err is None else err)
-    out.nontrivial = H.digest(["DUP", qtext])
+    out.nontrivial = H.digest([name, qtext])
     if err is not None:
-        out.ok, out.sig, out.detail = False, "execute-raised:" + err.split(":")[0], {"index": "DUP", "query": qtext, "error": err}
+        out.ok, out.sig, out.detail = False, "execute-raised:" + err.split(":")[0], {"index": name, "query": qtext, "error": err}
         return out
     U = ix.universe
     dims = [g for g in (group or []) if g != "none"]
@@ -202,10 +219,11 @@ def _run_dup_case(ctx, case) -> F.Outcome:
     got = sorted([list(c), e] for c, entries in groups for e in entries)
     if problems:
         out.ok, out.sig = False, "output-structure"
-        out.detail = {"index": "DUP", "query": qtext, "problem": problems, "output": res[:2000]}
+        out.detail = {"index": name, "query": qtext, "problem": problems, "output": res[:2000]}
     elif got != want:
-        out.ok, out.sig = False, "shared-zid:selected-notes-not-each-exactly-once-under-their-own-headers"
-        out.detail = {"index": "DUP", "files": DUP_FILES, "query": qtext, "expected": want, "observed": got, "output": res[:2000]}
+        out.ok = False
+        out.sig = ("shared-zid" if name == "DUP" else "dotted-paths") + ":selected-notes-not-each-exactly-once-under-their-own-headers"
+        out.detail = {"index": name, "files": DUP_FILES, "query": qtext, "expected": want, "observed": got, "output": res[:2000]}
     return out
 
 
@@ -216,7 +234,7 @@ def _k(n, key):
 
 
 def _run_case(ctx, case) -> F.Outcome:
-    if case[0] == "DUP":
+    if case[0] in SMALL:
         return _run_dup_case(ctx, case)
     name, select, wi, order, group = case
     ix = _index(name)
@@ -286,12 +304,14 @@ def _cases(ctx):
                             cases.append([name, ["count", sel], wi, o, g])
     for w, o, g in DUP_QUERIES:
         cases.append(["DUP", w, o, g])
+    for w, o, g in PATHS_QUERIES:
+        cases.append(["PATHS", w, o, g])
     return cases
 
 
 def _sample(case):
-    if case[0] == "DUP":
-        return {"index": "DUP (two notes share a ZID)", "query": Q.render_query(["note"], case[1], case[2], case[3])}
+    if case[0] in SMALL:
+        return {"index": case[0] + " (two notes share a ZID / '.zo' inside page paths)", "query": Q.render_query(["note"], case[1], case[2], case[3])}
     name, select, wi, order, group = case
     return {"index": name, "query": Q.render_query(select, WHERES[name][wi], order, group)}
 
@@ -301,7 +321,8 @@ def run(ctx: F.Ctx):
     cases = _cases(ctx)
     for n in ("K1", "K4"):
         _index(n)
-    _IX["DUP"] = IX.Index(DUP_FILES, DAY, tag="c09d", allow_shared_zids=True)
+    _small_index("DUP")
+    _small_index("PATHS")
     try:
         rep = F.explore(ctx, cases, lambda c: _run_case(ctx, c), sample=_sample, day=DAY, twice_every=499)
     finally:
@@ -320,7 +341,7 @@ def run(ctx: F.Ctx):
             "create alpha} for value selections; 3 filters per index (no WHERE, a mid-selectivity "
             "filter, a filter selecting nothing); plus a three-page index in which a note line was copied to another page "
             "(two notes share a ZID, each page also holds an earlier ZID) under 12 note queries, where every matching note "
-            "must be listed exactly once under its own headers (notes told apart by their text). Laws in the module docstring. Non-trivial = the "
+            "must be listed exactly once under its own headers (notes told apart by their text); and a three-page index whose page paths contain '.zo' before the extension too (my.zone/a.zo, x.zoo.zo) under 3 queries grouped by file. Laws in the module docstring. Non-trivial = the "
             "filter selects something."
         ),
         "bounds": {"cases": len(cases), "frozen_day": DAY.isoformat()},
